@@ -17,7 +17,7 @@ RULE = ("one evaluation = one configuration round trip (field subset x generated
 ASSUMPTIONS = ["process death only (os._exit): power loss / fsync ordering is not observable here",
                "the untyped key=value format is compared as strings; values there contain no comment characters, '=' only inside, and no surrounding blanks",
                "text values are valid unicode without control characters (key=value) / arbitrary unicode (JSON)"]
-REQUIRED = ["loads_through_stack_setProfile", "second_saves", "second_save_ok", "read_before_save", "roundtrips", "route:save-profile", "route:save-dest", "route:str-file", "never_used_profiles", "binary_fields",
+REQUIRED = ["rewrites_in_other_format", "rewrite_other_format_ok", "loads_through_stack_setProfile", "second_saves", "second_save_ok", "read_before_save", "roundtrips", "route:save-profile", "route:save-dest", "route:str-file", "never_used_profiles", "binary_fields",
             "crash_children", "crash_died_inside", "crash_outcome:old", "crash_outcome:new"]
 TIMEOUT = {"quick": 900, "thorough": 7200}
 
@@ -217,6 +217,26 @@ def roundtrip(acc, r, subset, fmt, route, loadpath, used_before, tag):
         acc.violation("roundtrip-differs:%s:%s" % (fmt, d.split(":")[0].replace("field ", "")), "loaded configuration differs: %s" % d, w)
         return
     acc.count("roundtrip_ok")
+    # a file named without extension (its format is found by trying) is rewritten in the OTHER format through the same manager
+    # object, and loaded again through it: what loads is what was written last
+    if loadpath == "path-noext" and route in ("save-dest", "str-file") and r.random() < 0.6:
+        fmt3 = "keyval" if fmt == "json" else "json"
+        vals3 = gen_values(r, [f for f in subset if f not in BINARY or fmt3 == "json" or True], fmt3)
+        vals3["phone"] = vals["phone"]
+        cfg3 = Config(**vals3)
+        acc.count("rewrites_in_other_format")
+        w3 = dict(w, rewrite_fmt=fmt3)
+        try:
+            cm.save(profile, cfg3, serialize_type=(ConfigManager.TYPE_KEYVAL if fmt3 == "keyval" else ConfigManager.TYPE_JSON), dest=target)
+            back3 = cm.load(target)
+        except Exception as e:  # noqa
+            acc.violation("rewrite-other-format-raises:%s" % type(e).__name__, "a file without extension rewritten as %s (was %s) through the same manager, then loaded: %r" % (fmt3, fmt, e), w3)
+            return
+        d3 = "nothing loads" if back3 is None else cfg_diff(cfg3, back3, untyped=(fmt3 == "keyval"))
+        if d3:
+            acc.violation("rewrite-other-format-differs:%s" % fmt3, "a file without extension rewritten as %s (was %s) loads differently: %s" % (fmt3, fmt, d3), w3)
+            return
+        acc.count("rewrite_other_format_ok")
     # the same profile is saved a second time with other values (an account that logs in again gets new routing info, a new
     # server key, ...), by any of the profile routes and in either format: what loads afterwards is the second configuration
     if target == profile and r.random() < 0.4:
